@@ -205,7 +205,7 @@ func checkC08(c c08Case, r *vcore.Rec) *vcore.Failure {
 		before := w.Snap()
 		storeBefore := w.StoreList()
 		if j > 0 {
-			w.ArmFault(&Fault{K: j, Mode: "error", Err: "internal"})
+			w.ArmFault(&Fault{K: j, Mode: "error", Err: []string{"internal", "exists", "timeout"}[j%3]})
 		}
 		var got []net.IP
 		var err error
@@ -282,7 +282,7 @@ func checkC08(c c08Case, r *vcore.Rec) *vcore.Failure {
 		node := nodes[c.NodePick%len(nodes)]
 		before := w.Snap()
 		if j > 0 {
-			w.ArmFault(&Fault{K: j, Mode: "error", Err: "internal"})
+			w.ArmFault(&Fault{K: j, Mode: "error", Err: []string{"internal", "exists", "timeout"}[j%3]})
 		}
 		berr, _ := w.Bind(st.pod.Name, st.pod.UID, node)
 		hit := w.FaultHit()
